@@ -8,11 +8,17 @@
   * in the counter-chain schemes every stored value is such a ciphertext with its own draw, so pairwise distinct draws
     give pairwise distinct entries (`Chain.values_distinct`), and every stored key is a PRF output (`Chain.keys_are_prf`,
     from `encDb_labels`): keywords and identifiers enter the index only as ARGUMENTS of keyed primitives.
+  * PiPtr and Pi2Lev: EVERY byte string `EDBSetup` stores — every occupied array cell and every dictionary value — is a ciphertext
+    that starts with a 16-byte draw of this run (`PiPtr.index_is_ciphertexts`, `Pi2Lev.index_is_ciphertexts`): identifier blocks and pointer blocks enter
+    the index only as plaintexts of the randomized cipher, for every key, database and tape; hence two set-ups whose
+    draws do not overlap share no array cell and no dictionary value, even for the same key and database
+    (`PiPtr.reencryption_shares_nothing`).
   That no keyword or identifier then occurs as a substring is a probability statement about pseudo-random bytes; the
   direct oracle scans the real serialized index and tokens.
 -/
 import SSEPyVerif.Proofs.Schemes.Chain
 import SSEPyVerif.Proofs.Schemes.Prims
+import SSEPyVerif.Proofs.Schemes.Stamped
 namespace SSEPy.C04
 open SSEPy.Sch SSEPy.Sch.Chain
 
@@ -87,5 +93,40 @@ theorem Chain.values_distinct (cfg : ChainCfg) (lv : Leaves) (K1 K2 : Bytes) (c 
 theorem Chain.keys_are_prf (cfg : ChainCfg) (lv : Leaves) (K : Bytes) (db : DB) (t t' : Tape) (L : List (Bytes × Bytes))
     (h : encDb cfg lv K db t = .ok (L, t')) : L.map (·.1) = db.flatMap (kwLabels cfg lv K) :=
   encDb_labels cfg lv K db t t' L h
+
+/-- PiPtr (schemes/CJJ14/PiPtr): every occupied array cell and every dictionary value of the index `EDBSetup` returns is a
+    ciphertext whose first 16 bytes are one of the draws of this run — for every key, database and tape.  Nothing else is
+    stored: no identifier, no pointer and no keyword in clear. -/
+theorem PiPtr.index_is_ciphertexts (cfg : PiPtrCfg) (lv : Leaves) (K : Bytes) (db : DB) (t t' : Tape) (edb : PiPtrEDB)
+    (h : PiPtr.setup cfg lv K db t = .ok (edb, t')) :
+    (∀ c, some c ∈ edb.A → Stamped t c) ∧ (∀ p ∈ edb.D, Stamped t p.2) :=
+  PiPtr.setup_stamped cfg lv K db t t' edb h
+
+/-- two PiPtr set-ups whose randomness does not overlap share no stored byte string — whatever the keys and databases,
+    the same ones included: encrypting a database twice gives two indexes with nothing in common -/
+theorem PiPtr.reencryption_shares_nothing (cfg : PiPtrCfg) (lv : Leaves) (K K' : Bytes) (db db' : DB) (t t' u u' : Tape)
+    (e e' : PiPtrEDB) (h : PiPtr.setup cfg lv K db t = .ok (e, t')) (h' : PiPtr.setup cfg lv K' db' u = .ok (e', u'))
+    (hdis : ∀ b, Draw.bytes b ∈ t → Draw.bytes b ∉ u) :
+    (∀ c, some c ∈ e.A → some c ∉ e'.A) ∧ (∀ p ∈ e.D, ∀ q ∈ e'.D, p.2 ≠ q.2) := by
+  obtain ⟨a1, d1⟩ := PiPtr.index_is_ciphertexts cfg lv K db t t' e h
+  obtain ⟨a2, d2⟩ := PiPtr.index_is_ciphertexts cfg lv K' db' u u' e' h'
+  exact ⟨fun c hc hc' => hdis _ (a1 c hc) (a2 c hc'), fun p hp q hq he => hdis _ (d1 p hp) (by rw [he]; exact d2 q hq)⟩
+
+/-- Pi2Lev (schemes/CJJ14/Pi2Lev): the same for the two-level scheme — every occupied array cell (identifier blocks and
+    pointer blocks of both levels) and every dictionary value (small lists, pointer lists) is a ciphertext stamped with a
+    draw of this run, for every key, database and tape -/
+theorem Pi2Lev.index_is_ciphertexts (cfg : Pi2LevCfg) (lv : Leaves) (K : Bytes) (db : DB) (t t' : Tape) (edb : PiPtrEDB)
+    (h : Pi2Lev.setup cfg lv K db t = .ok (edb, t')) :
+    (∀ c, some c ∈ edb.A → Stamped t c) ∧ (∀ p ∈ edb.D, Stamped t p.2) :=
+  Pi2Lev.setup_stamped cfg lv K db t t' edb h
+
+/-- two Pi2Lev set-ups whose randomness does not overlap share no stored byte string -/
+theorem Pi2Lev.reencryption_shares_nothing (cfg : Pi2LevCfg) (lv : Leaves) (K K' : Bytes) (db db' : DB) (t t' u u' : Tape)
+    (e e' : PiPtrEDB) (h : Pi2Lev.setup cfg lv K db t = .ok (e, t')) (h' : Pi2Lev.setup cfg lv K' db' u = .ok (e', u'))
+    (hdis : ∀ b, Draw.bytes b ∈ t → Draw.bytes b ∉ u) :
+    (∀ c, some c ∈ e.A → some c ∉ e'.A) ∧ (∀ p ∈ e.D, ∀ q ∈ e'.D, p.2 ≠ q.2) := by
+  obtain ⟨a1, d1⟩ := Pi2Lev.index_is_ciphertexts cfg lv K db t t' e h
+  obtain ⟨a2, d2⟩ := Pi2Lev.index_is_ciphertexts cfg lv K' db' u u' e' h'
+  exact ⟨fun c hc hc' => hdis _ (a1 c hc) (a2 c hc'), fun p hp q hq he => hdis _ (d1 p hp) (by rw [he]; exact d2 q hq)⟩
 
 end SSEPy.C04
